@@ -115,6 +115,20 @@ class Layout:
         ]
         return cdict(items)
 
+    def layer_mixed(self, hidden: bool = False, comments: bool = False) -> HDict:
+        """A LAYER whose simple keywords stand before, between and after its nested blocks."""
+        d = self.layer(hidden=hidden, comments=comments)
+        items = [(k, v) for k, v in d.items()]
+        head = [(k, v) for k, v in items if k.startswith("__")]
+        rest = [(k, v) for k, v in items if not k.startswith("__")]
+        order = ["name", "classes", "type", "metadata", "processing", "projection"]
+        byk = dict(rest)
+        mixed = head + [(k, byk[k]) for k in order if k in byk]
+        mixed.append(("status", SStr.atom("enumword2", lower_is="on")))
+        if comments:
+            dict(head)["__comments__"]["status"] = [SStr(["# ", Atom("COMMENT_status", excludes=frozenset("\n"))])]
+        return cdict(mixed)
+
     def hidden_key_probes(self) -> list:
         res = []
         for name, mk in (("layer with __position__/__tokens__/__custom__", lambda: self.layer(hidden=True)),):
